@@ -669,11 +669,16 @@ func c20Health(hist []bool, threshold int) vx.Scenario {
 		}}
 }
 
-func c20Shutdown(sig syscall.Signal, grace, latency time.Duration, pb int) vx.Scenario {
-	return vx.Scenario{Name: fmt.Sprintf("c20/shutdown/%v/grace%v/lat%v", sig, grace, latency), PB: pb, Delay: true, MaxSteps: 20000, MaxTime: time.Minute,
+func c20Shutdown(sig syscall.Signal, grace, latency time.Duration, pb int, failing bool) vx.Scenario {
+	return vx.Scenario{Name: fmt.Sprintf("c20/shutdown/%v/grace%v/lat%v/proxyfailing=%v", sig, grace, latency, failing), PB: pb, Delay: true, MaxSteps: 20000, MaxTime: time.Minute,
 		Setup: func(s *vs.Sched) func(*vs.Result) vx.Exec {
 			w := newWorld(s)
 			w.lists = []listReply{{ids: []string{"a"}}, {ids: []string{}}, {ids: []string{}}}
+			if failing {
+				// the proxy starts failing: the agent is in its back-off loop when the signal arrives
+				w.lists = []listReply{{ids: []string{"a"}}, {kind: "err"}, {kind: "500"}}
+				w.afterLists = "err"
+			}
 			w.backend["a"] = &backendPlan{latency: latency}
 			var sigAt time.Duration = -1
 			listsAtSignal := -1
@@ -760,9 +765,9 @@ func min(a, b int) int {
 
 func c20Scenarios(th bool) []vx.Scenario {
 	var out []vx.Scenario
-	n := 5
+	n := 6
 	if th {
-		n = 7
+		n = 8
 	}
 	for l := 0; l <= n; l++ {
 		for m := 0; m < 1<<l; m++ {
@@ -785,7 +790,10 @@ func c20Scenarios(th bool) []vx.Scenario {
 	for _, sig := range []syscall.Signal{syscall.SIGINT, syscall.SIGTERM} {
 		for _, g := range []time.Duration{0, 2 * time.Second, 5 * time.Second, 10 * time.Second} {
 			for _, lat := range []time.Duration{0, 5 * time.Second} {
-				out = append(out, c20Shutdown(sig, g, lat, pb))
+				out = append(out, c20Shutdown(sig, g, lat, pb, false))
+				if lat == 0 {
+					out = append(out, c20Shutdown(sig, g, lat, pb, true))
+				}
 			}
 		}
 	}
